@@ -164,7 +164,9 @@ def gen_fallback(rng):
     if kind == 'colon-required':
         base = G.gen_case(rng, layout=rng.choice(['TRS_desc', 'S_desc_TR']),
                           max_groups=2, max_secs=2)
-        text = base['text'].replace(':', '')
+        # the colon is dropped, or mistyped as another punctuation mark
+        text = base['text'].replace(':', rng.choice(['', '', '', ';', ',',
+                                                     ' ;']))
         cfg = rng.choice(['sec_colon_required', 'sec_colon_required',
                           'sec_colon_required,sec_within',
                           'sec_within,sec_colon_required,parse_qq',
